@@ -155,17 +155,26 @@ def check_spec(ctx, spec, points):
     Is = SafeModelCSimInterface(build_model(spec))
     Is.py_prep_deterministic_simulation()
     N = Uo + Do
+    safe_derivs = []
     for ip, pt in enumerate(points):
         x = state_vector(M, pt["x"])
         rates = np.array([rate_oracle(r, pt["x"], spec["params"], pt["t"]) for r in spec["reactions"]])
         left_out = [(i, j) for i in range(len(sl)) for j in range(N.shape[1]) if N[i, j] < 0 and x[i] <= 0]
-        if np.any(x < 0) or np.any(rates < 0) or any(rates[j] != 0 for _, j in left_out):
-            ctx.count("safe_guard_active_or_signed")
-            continue
         dx = np.full(len(sl), np.nan)
         with warnings.catch_warnings():
             warnings.simplefilter("ignore")
-            Is.py_calculate_deterministic_derivative(x.copy(), dx, float(pt["t"]))
+            try:
+                Is.py_calculate_deterministic_derivative(x.copy(), dx, float(pt["t"]))
+                safe_derivs.append([float(v) for v in dx])
+            except RuntimeError:
+                safe_derivs.append(None)           # the guard's refusal: a species at zero with a negative sum
+        if np.any(x < 0) or np.any(rates < 0) or any(rates[j] != 0 for _, j in left_out):
+            ctx.count("safe_guard_active_or_signed")
+            continue
+        if safe_derivs[-1] is None:
+            ctx.violation("derivative/safe", "safe interface refuses a state where its guard leaves out only zero terms",
+                          {"spec": spec, "point": {k: str(v) for k, v in pt["x"].items()}, "t": str(pt["t"]), "safe": True})
+            break
         want = N @ rates
         scale = np.abs(N) @ np.abs(rates) + 1e-300
         ctx.evaluated()
@@ -196,6 +205,24 @@ def check_spec(ctx, spec, points):
             bad = (f2b(md[i]) != f2b(derivs[pi][i])) if exact else (relerr(md[i], derivs[pi][i]) > 1e-12 and abs(md[i] - derivs[pi][i]) > 1e-12)
             if bad:
                 ctx.broke("corr_C03_derivative", {"spec": spec, "point": str(pt), "species": sl[i], "model": md[i], "implementation": derivs[pi][i]})
+    # the safe interface's derivative (guard active or not, refusals included) against the Lean derivativeSafe
+    for pi, pt in enumerate(points):
+        if pi >= len(safe_derivs):
+            break
+        ms = ans["points"][pi]["sderiv"]
+        real = safe_derivs[pi]
+        if (ms is None) != (real is None):
+            ctx.broke("corr_C03_safe_derivative", {"spec": spec, "point": str(pt), "model": ms, "implementation": real})
+            continue
+        if ms is None:
+            ctx.count("safe_refusals_agreed")
+            continue
+        ms = [b2f(v) for v in ms]
+        for i in range(len(sl)):
+            bad = (f2b(ms[i]) != f2b(real[i])) if exact else (relerr(ms[i], real[i]) > 1e-12 and abs(ms[i] - real[i]) > 1e-12)
+            if bad:
+                ctx.broke("corr_C03_safe_derivative", {"spec": spec, "point": str(pt), "species": sl[i], "model": ms[i], "implementation": real[i]})
+                break
     shape = (len(sl), len(spec["reactions"]), bool(Do.any()), tuple(sorted(set(r["prop"]["type"] for r in spec["reactions"]))),
              int(np.abs(Uo).max()) if Uo.size else 0, tuple(sl))
     ctx.nontriv(shape)
